@@ -150,10 +150,11 @@ let handle_jt = function
       Printf.sprintf "%s %s docs:%d %s" id fin (List.length (fst r)) (hex_of_bytes (jm_output r))
   | _ -> failwith "bad JT line"
 
-(* JW <id> <hex>: JSON -> JSON through the reader and writer models (float-free, fully translated inputs only) *)
+(* JW <id> <hex>: JSON -> JSON through the reader and writer models, floats spelled by the model of
+   serde_json's serialize_f64 / ryu (fully translated inputs only) *)
 let handle_jw = function
   | [ id; data ] ->
-      (match json_to_json (bytes_of_hex data) with
+      (match json_to_json_f (bytes_of_hex data) with
       | None -> id ^ " none"
       | Some out -> id ^ " " ^ hex_of_bytes out)
   | _ -> failwith "bad JW line"
@@ -161,10 +162,19 @@ let handle_jw = function
 (* MJ <id> <hex>: MessagePack -> JSON through the MessagePack reader model and the JSON writer model *)
 let handle_mj = function
   | [ id; data ] ->
-      (match msgpack_to_json (bytes_of_hex data) with
+      (match msgpack_to_json_f (bytes_of_hex data) with
       | None -> id ^ " none"
       | Some out -> id ^ " " ^ hex_of_bytes out)
   | _ -> failwith "bad MJ line"
+
+(* RY <id> <16 hex digits>: the text serde_json writes for the binary64 with these bits (big-endian), and
+   whether the model's search for the shortest digits succeeded *)
+let handle_ry = function
+  | [ id; data ] ->
+      let bits = List.fold_left (fun acc b -> N.add (N.mul acc (n_of_int 256)) b) N0 (bytes_of_hex data) in
+      let fin = f_finite bits in
+      Printf.sprintf "%s %s %s" id (if fin then (if ryu_ok bits then "ok" else "notfound") else "nonfinite") (hex_of_bytes (json_f64 bits))
+  | _ -> failwith "bad RY line"
 
 (* TV <id> <hex>: the verdict of a TOML output on one MessagePack document *)
 let handle_tv = function
@@ -558,6 +568,7 @@ let () =
           | "JW" :: rest -> handle_jw rest
           | "MJ" :: rest -> handle_mj rest
           | "TV" :: rest -> handle_tv rest
+          | "RY" :: rest -> handle_ry rest
           | k :: _ -> failwith ("unknown case kind " ^ k)
           | [] -> ""
         in
